@@ -97,6 +97,12 @@ type content struct {
 	// Spare adds the rule lists vs_shared, vs_allow and vs_extra (see
 	// spare_test.go) to the index.
 	Spare bool `json:"spare_lists,omitempty"`
+	// HashFault, per hash list: the served body is corrupted.  The head is the
+	// valid list of version Hash[kind]; then comes a line that is longer than
+	// the 64 KiB a line scanner accepts ("middle": more valid hosts follow,
+	// "end": the over-long line ends the body without a newline, "start": the
+	// over-long line comes first).
+	HashFault map[string]string `json:"hash_list_fault,omitempty"`
 	// HashFiller unrelated hosts are put in FRONT of every hash list, so that
 	// resetting the hash storage takes a while.
 	HashFiller int `json:"hash_list_filler_hosts,omitempty"`
@@ -112,6 +118,12 @@ func (c content) clone() content {
 	}
 	for k, v := range c.Hash {
 		n.Hash[k] = v
+	}
+	for k, v := range c.HashFault {
+		if n.HashFault == nil {
+			n.HashFault = map[string]string{}
+		}
+		n.HashFault[k] = v
 	}
 	return n
 }
@@ -246,6 +258,19 @@ func hashText(kind string, v, filler int) string {
 	return b.String()
 }
 
+// faultyHashText corrupts a valid hash list with an over-long line.
+func faultyHashText(kind, valid, form string) string {
+	long := strings.Repeat("x", 70000) + "." + kind + ".test"
+	switch form {
+	case "start":
+		return long + "\n" + valid
+	case "end":
+		return valid + long
+	default:
+		return valid + long + "\ntail." + kind + ".test\n"
+	}
+}
+
 // srv is the one content server all environments are fed from.
 type srv struct {
 	mu   sync.Mutex
@@ -336,6 +361,9 @@ func (s *srv) serve(w http.ResponseWriter, rq *http.Request) {
 			return
 		}
 		body = hashText(k, c.Hash[k], c.HashFiller)
+		if f := c.HashFault[k]; f != "" {
+			body = faultyHashText(k, body, f)
+		}
 	default:
 		http.NotFound(w, rq)
 		return
